@@ -138,27 +138,20 @@ func LoadGoMains() []Item {
 		if !selfContainedMain(src) {
 			return nil
 		}
-		// single-file package only
-		n := 0
-		if ents, err := os.ReadDir(filepath.Dir(p)); err == nil {
-			for _, e := range ents {
-				if strings.HasSuffix(e.Name(), ".go") && !strings.HasSuffix(e.Name(), "_test.go") {
-					n++
-				}
-				switch filepath.Ext(e.Name()) {
-				case ".xgo", ".gop", ".gox":
-					n += 10
-				}
-			}
-		}
-		if n != 1 {
-			return nil
-		}
 		rel, _ := filepath.Rel(repo, p)
 		items = append(items, Item{Origin: rel, Files: Files{"main.go": src}})
 		return nil
 	})
 	sort.Slice(items, func(i, j int) bool { return items[i].Origin < items[j].Origin })
+	// golden Go outputs quoted in the cl tests
+	for _, tf := range []string{"cl/compile_test.go", "cl/compile_gop_test.go", "cl/typeparams_test.go", "cl/builtin_test.go"} {
+		for _, it := range snippetsOf(filepath.Join(repo, tf), tf) {
+			src := it.Files["main.xgo"]
+			if strings.HasPrefix(src, "package main") && selfContainedMain(src) {
+				items = append(items, Item{Origin: it.Origin, Files: Files{"main.go": src}})
+			}
+		}
+	}
 	return items
 }
 
